@@ -121,6 +121,10 @@ def run(tier):
     import checks.c04 as c04
     run.add_cases("c01_shaped", c04.shaped_cases(tier, "c01s"))
     run.add_cases("c01_edges", edge_shapes(tier))
+    # arms with several conditions of which a later one fails or allocates although an earlier one is false; scans with groups that do
+    # not take part in the match (shaped programs of the strict/lazy comparison, here against the machine)
+    import checks.c02 as c02
+    run.add_cases("c01_conds", [dict(c, id="c01k" + c["id"][4:]) for c in c02.shaped_cases(tier)])
     # programs enumerated by TLC over the wide statement pool (MCExec; Total and EdgeSet hold on the machines for every one of them)
     import mcexec
     import astgen as A2
